@@ -24,6 +24,7 @@ fn shard(ctx: &Ctx, rep: &mut Report) {
 		hist::run_case(ctx, rep, profile, case_seed, variant);
 		return
 	}
+	pv::scratch::install_sink_logger();
 	let n_cases = profile.cases(ctx.tier);
 	let mut seeder = Rng::new(ctx.seed ^ 0xC0FFEE);
 	let mut i = 0u64;
@@ -32,6 +33,11 @@ fn shard(ctx: &Ctx, rep: &mut Report) {
 		// the variant index walks the profile's configuration list so every configuration is
 		// visited by every shard regardless of the random stream
 		let variant = ctx.shard as u64 + i * ctx.nshards as u64;
+		// every 4th case runs with the library's debug logging evaluated (into a sink)
+		pv::scratch::log_level(i % 4 == 3);
+		if i % 4 == 3 {
+			rep.count("cases_with_debug_logging", 1);
+		}
 		hist::run_case(ctx, rep, profile, case_seed, variant);
 		rep.cases += 1;
 		ctx.checkpoint(rep);
